@@ -2918,10 +2918,19 @@ class PlateSlicer(Slicer):
                     elem2.instructions = "\n".join(instructions)
                 return elem1, elem2
 
-            func = numpy.frompyfunc(helper, 2, 2)
-            frm_result, to_result = func(frm.get(), to.get())
-            frm.set(frm_result)
-            to.set(to_result)
+            if isinstance(frm.slices, list) and isinstance(to.slices, list):
+                # Wells listed one by one are paired in order, each pair on the current state of its wells
+                # (a well may be listed more than once).
+                for frm_index, to_index in zip(frm.slices, to.slices):
+                    source_well, dest_well = helper(frm.array.__getitem__(frm_index)[0, 0],
+                                                    to.array.__getitem__(to_index)[0, 0])
+                    frm.array.__setitem__(frm_index, [[source_well]])
+                    to.array.__setitem__(to_index, [[dest_well]])
+            else:
+                func = numpy.frompyfunc(helper, 2, 2)
+                frm_result, to_result = func(frm.get(), to.get())
+                frm.set(frm_result)
+                to.set(to_result)
         else:
             raise ValueError("Source and destination slices must be the same size and shape.")
 
